@@ -39,3 +39,77 @@ mod sse2;
     target_feature = "sse2",
 ))]
 pub(crate) type ChaChaEngine<const R: usize> = sse2::State<R>;
+
+#[cfg(all(
+    feature = "verif-hooks",
+    any(target_arch = "x86", target_arch = "x86_64"),
+    any(target_feature = "sse2", target_feature = "avx2")
+))]
+#[path = "reference.rs"]
+#[allow(dead_code)]
+mod reference;
+
+#[cfg(feature = "verif-hooks")]
+macro_rules! verif_engine {
+    ($name:ident, $state:ty, $doc:literal) => {
+        #[doc = $doc]
+        #[derive(Clone)]
+        pub struct $name<const R: usize>($state);
+
+        impl<const R: usize> $name<R> {
+            /// initialise from a 16- or 32-byte key and an 8-, 12- or 16-byte nonce
+            pub fn init(key: &[u8], nonce: &[u8]) -> Self {
+                assert!(key.len() == 16 || key.len() == 32);
+                assert!(nonce.len() == 8 || nonce.len() == 12 || nonce.len() == 16);
+                Self(<$state>::init(key, nonce))
+            }
+            /// the 64-byte keystream block of the current state (rounds, add_back, output)
+            pub fn block(&self) -> [u8; 64] {
+                let mut st = self.0.clone();
+                st.rounds();
+                st.add_back(&self.0);
+                let mut out = [0u8; 64];
+                st.output_bytes(&mut out);
+                out
+            }
+            /// the HChaCha output of the current state (rounds, words 0..4 and 12..16)
+            pub fn hchacha(&self) -> [u8; 32] {
+                let mut st = self.0.clone();
+                st.rounds();
+                let mut out = [0u8; 32];
+                st.output_ad_bytes(&mut out);
+                out
+            }
+            /// set the 32-bit block counter
+            pub fn set_counter(&mut self, counter: u32) {
+                self.0.set_counter(counter)
+            }
+            /// set both low counter words
+            pub fn set_counter64(&mut self, lo: u32, hi: u32) {
+                self.0.verif_set_counter64(lo, hi)
+            }
+            /// 32-bit wrapping increment
+            pub fn increment(&mut self) {
+                self.0.increment()
+            }
+            /// 64-bit increment with carry
+            pub fn increment64(&mut self) {
+                self.0.increment64()
+            }
+        }
+    };
+}
+
+#[cfg(feature = "verif-hooks")]
+verif_engine!(
+    VerifEngine,
+    ChaChaEngine<R>,
+    "verification hook: the ChaCha engine selected for this target"
+);
+
+#[cfg(feature = "verif-hooks")]
+verif_engine!(
+    VerifPortableEngine,
+    reference::State<R>,
+    "verification hook: the portable ChaCha engine, also compiled on x86"
+);
